@@ -6,6 +6,8 @@
 (N) duplicate label is rejected: the Option returned by set_label is inspected and its Some path returns Err;
 (P) alias == register: get_r8 returns the stored Reg8 unchanged; .undef removes the key;
 (N) sequencing: .set/.def/.undef are applied inside pass 2's single forward item loop; labels are bound in pass 1, before pass 2; .equ at parse time."""
+import json
+import os
 import re
 
 import absint
@@ -138,8 +140,29 @@ def one_meaning(P, rep, rows1):
     rows2, _, _ = L.pass2_rows(P)
     dcont = [r for r in rows2 if r.item == "Def" and r.exit == "loop"]
     stores = lambda r: any(e[0] == 'call' and e[1].endswith("::insert") and "defs" in str(e[2][0]) for e in r.events)
-    ok = bool(dcont) and all(stores(r) and name_free(r) for r in dcont)
-    bad = [r for r in dcont if not stores(r)]
+    def eq_facts(r):
+        """(infeasible, same): the path takes None == Some(..) for true / knows that the alias already stands for the very register"""
+        infeasible = same = False
+        for e, t in r.conds:
+            sh = sx.show(e)
+            m = re.match(r"^\((?:[\w:<> ]*::)?(eq|ne)\((.*)\)(@\d+)? == 0\)$", sh)
+            if not m:
+                continue
+            equal = (not t) if m.group(1) == "eq" else t
+            a = m.group(2)
+            if re.match(r"^Option::None, Option::Some\(", a) or re.match(r"^Option::Some\(.*\), Option::None$", a):
+                infeasible = infeasible or equal
+            elif "defs" in a and "Reg8::" in a and equal:
+                same = True
+        return infeasible, same
+
+    dcont = [r for r in dcont if not eq_facts(r)[0]]
+    # a .def that goes on has stored its alias, the name being free - or the alias already stands for that very register (the same
+    # line read again) and the name means nothing else
+    fine = lambda r: (stores(r) and name_free(r)) or (not stores(r) and eq_facts(r)[1] and
+                                                      (lookup_none(r, "get_expr") or all(lookup_none(r, g_) for g_ in ("get_define", "get_equ", "get_set", "get_special", "get_label"))))
+    ok = bool(dcont) and any(stores(r) for r in dcont) and all(fine(r) for r in dcont)
+    bad = [r for r in dcont if not stores(r) and not fine(r)]
     rep.ob("C10.unique|def", ok, "every .def line either stores its alias - the name being free - or fails the build" if ok else
            ("a .def line can pass without storing its alias and without an error (%d such paths): the line is ignored, a later use takes the earlier meaning" % len(bad) if bad else
             "a .def is stored without asking whether the name is in use"))
@@ -191,6 +214,88 @@ def equ_is_lazy(P, rep, key, consequence):
     moving = any(k.endswith("set_special") for k in P.reachable(["builder::pass2::pass_2_internal"]))
     rep.ob(key, not (lazy and moving), "a .equ is stored as a value" if not lazy else
            "a .equ stores its expression as written and every use evaluates it anew, with the `pc` and `.set` values of the using line: %s" % consequence)
+
+
+def more_one_meaning(P, rep):
+    """(#define) a name that stands for something else may not become a flag: a definition is stored only when the name is free or is a
+    flag already; (pc) the location counter's name is in use from the start for every check that asks `exist`; (.undef) a line that
+    succeeds has exactly one operand."""
+    import rules_C08
+    fn = "directive::Directive::parse"
+    dv = rules_C08.dvariants(P)
+    inv = {n: d for d, n in dv.items()}
+    M = absint.Machine(P, max_depth=4, opaque={"expr::Expr::run", "parser::parse_file_internal", "context::Context::exist"})
+    paths = M.explore(fn, M.arg_unknowns(fn), doms={sx.S("self*#d", 64, True): sx.dom_set([inv["Define"]])})
+    stored = [p for p in paths if p.exit == "Ok" and any(e[0] == 'call' and e[1].endswith("::insert") and "defines" in str(e[2][0]) for e in p.events)]
+    why = []
+    for p in stored:
+        free = flag = False
+        for e, t in p.conds:
+            sh = sx.show(e)
+            if re.match(r"^\(exist\(.*\)(@\d+)? == 0\)$", sh) and t:
+                free = True
+            m = re.match(r"^\([\w:<>, ]*::get\(.*\.defines\b.*\)#d == ([01])\)$", sh)
+            if m and ((m.group(1) == "1") == t):
+                flag = True
+            m = re.match(r"^\(get_define\(.*\)#d == ([01])\)$", sh)
+            if m and ((m.group(1) == "1") == t):
+                flag = True
+        if not (free or flag):
+            why.append("a flag is stored although the name may stand for something else")
+    if not stored:
+        why.append("no path stores a flag")
+    rep.ob("C10.unique|define", not why, "a #define is stored only when its name is free or is a flag already" if not why else
+           "%s: `.equ foo = 2 / #define foo 1` gives every reference to the constant, also those in front of the #define, the value 1" % why[0])
+    # .undef
+    paths = M.explore(fn, M.arg_unknowns(fn), doms={sx.S("self*#d", 64, True): sx.dom_set([inv["Undef"]])})
+    oks = [p for p in paths if p.exit == "Ok"]
+    lens = []
+    for p in oks:
+        ds = [d for s_, d in p.state.doms.items() if isinstance(s_, tuple) and s_[0] == 's' and s_[1].startswith("opts*") and s_[1].endswith("#len")]
+        lens.append(ds[0] if len(ds) == 1 else None)
+    ok1 = bool(oks) and all(d is not None and sx.dom_min(d) == 1 and sx.dom_max(d) == 1 for d in lens)
+    rep.ob("C10.undef|one-name", ok1, "a successful .undef has exactly one operand" if ok1 else
+           "`.undef a, b` succeeds, removes a and leaves b defined without a word")
+    # pc: the name check `exist` answers yes for the names the assembler itself gives a meaning, before any table is asked
+    fn = "context::Context::exist"
+    if fn in P.body:
+        import mirutil as MU_
+        b = P.body[fn]
+        names = set()
+        for bb, t, nm, tg in P.call_sites(fn):
+            if re.search(r"::contains$", MU_.callee_names(t)[1]):
+                locs, cs, calls, places = MU_.backward_slice(b, t["args"][:1])
+                names |= {c.get("str") for c in cs if "str" in c}
+                # a named constant (its value is not in the MIR of the using function): read its literal from the source it is
+                # declared in
+                for kp in [k2 for k2 in P.body if k2.startswith(fn + "#promoted")] + [fn]:
+                    for bl in P.body[kp]["blocks"]:
+                        for st in bl["stmts"]:
+                            o = st.get("rv", {}).get("op", {}) if st["k"] == "assign" else {}
+                            cn = o.get("const", {}).get("opaque") if isinstance(o, dict) and "const" in o else None
+                            if cn and re.match(r"^[\w:]+$", cn):
+                                src = os.path.join(F.REPO, st["span"]["f"])
+                                try:
+                                    text = open(src).read()
+                                except OSError:
+                                    continue
+                                m = re.search(r"const\s+%s\s*:[^=]*=\s*\[([^\]]*)\]" % re.escape(cn.split("::")[-1]), text)
+                                if m:
+                                    names |= set(re.findall(r'"([^"]*)"', m.group(1)))
+        special_names = set()
+        for k2 in P.reachable(["builder::pass2::pass_2_internal"]):
+            pass
+        b2 = P.body.get("builder::pass2::pass_2_internal")
+        if b2 is not None:
+            for bb, t, nm, tg in P.call_sites("builder::pass2::pass_2_internal"):
+                if any(x.endswith("::set_special") for x in tg):
+                    locs, cs, calls, places = MU_.backward_slice(b2, [t["args"][1]])
+                    special_names |= {c.get("str") for c in cs if "str" in c}
+        ok = bool(special_names) and special_names <= names
+        rep.ob("C10.unique|pc", ok, "the names the assembler itself gives a value (%s) count as in use for every name check, from the start" % sorted(special_names) if ok else
+               "the name checks cannot see %s before pass 2 gives it a value (reserved in exist(): %s): a label `pc:` or `.equ pc = 5` is accepted and every reference then silently takes the location counter" % (sorted(special_names), sorted(n for n in names if n)))
+    else:
+        rep.unprovable("C10.unique|pc", "Context::exist not found")
 
 
 def ident_paths(P):
@@ -357,6 +462,7 @@ def run(tier):
     rep.ob("C10.duplicate-label", ok, "binding a label that already exists fails the build; a new one continues" if ok else
            "the result of the label insert is not checked: duplicate labels are accepted (Err paths %d, continue paths %d)" % (len(dup_err), len(dup_ok)))
     one_meaning(P, rep, rows1)
+    more_one_meaning(P, rep)
     equ_is_lazy(P, rep, "C10.equ|evaluated-at-use", "`.set s = 1 / .equ e = s / .set s = 2 / ldi r16, e` loads 2; `.equ e = s` before the first `.set s` builds")
     # every kind of line that can carry a label yields its Label item, before anything else of the line
     import lineitems
